@@ -57,4 +57,9 @@ theorem neutral_of_codes (s : Stmt) (c : Code)
 theorem neutral_nocode (s : Stmt) (hc : s.codes = []) : neutral s = true := by
   simp [neutral, toolStart, coolStart, toolStop, coolStop, needsIdle, hc]
 
+/-- commands that can move the tool, change the distance mode or open/close a mode context -/
+def motionOp : Op → Bool
+  | .move .. | .moveAbs .. | .setAxis .. | .home .. | .probe .. | .setDist .. | .enterCtx .. | .exitCtx => true
+  | _ => false
+
 end GscribModel.Builder
